@@ -15,7 +15,7 @@ RULE = (
     "(pair, recipe) stratum; intersection(a,b), intersection(b,a) and a.intersection(b) are each compared "
     "with the exact rational intersection (kind, end points within 1e-7, direction/normal parallel). "
     "non-trivial = exact result non-empty or the operands are parallel/collinear/coplanar (exact test); "
-    "distinct = distinct (a, b) descriptor pair."
+    "each case also draws a representation variant: int or float coordinates and one of the equivalent constructor forms (Line from Point+Vector / two Points / two Vectors, HalfLine and Segment from Point+Point / Point+Vector, Plane from point+normal / three points / point+two vectors / general form). distinct = distinct (a, b, variant)."
 )
 ASSUMPTIONS = [
     "float coordinates (the lattice values are exactly representable)",
@@ -44,7 +44,8 @@ def relation(a, b, r):
 
 def check(case, ctx):
     G = lib()
-    a, b = case
+    a, b = case[0], case[1]
+    var = case[2] if len(case) > 2 else B.DEFAULT_VAR
     r = X.inter_flat(a, b)
     par = relation(a, b, r)
     cls = "%s-%s:%s%s" % (a[0], b[0], B.kind_name(r), "/par" if par else "")
@@ -53,7 +54,8 @@ def check(case, ctx):
         ctx.nontrivial(case)
     ctx.sample(cls, case, B.kind_name(r))
     e = B.fdesc(r)
-    oa, ob = B.build(a), B.build(b)
+    oa, ob = B.build_var(a, b, var)
+    ctx.cls("ctypes:%s%s" % (var[0], var[2]))
     calls = [("intersection(a,b)", G.intersection, (oa, ob)), ("intersection(b,a)", G.intersection, (ob, oa))]
     if a[0] != "P":
         calls.append(("a.intersection(b)", oa.intersection, (ob,)))
@@ -77,7 +79,7 @@ def check(case, ctx):
 
 
 def admit(case, fail):
-    a, b = case
+    a, b = case[0], case[1]
     r = X.inter_flat(a, b)
     return A.flat_case_margin(a, b, r).reason()
 
@@ -89,5 +91,5 @@ def strata(tier):
         for kb in FLATS:
             for rec in gen.flat_recipes(ka, kb):
                 n = per if rec != "free" else per // 2
-                out.append(Stratum("%s-%s/%s" % (ka, kb, rec), "hyp", gen.flat_pair(ka, kb, rec), n))
+                out.append(Stratum("%s-%s/%s" % (ka, kb, rec), "hyp", gen.with_variant(gen.flat_pair(ka, kb, rec)), n))
     return out
